@@ -8,6 +8,10 @@ ids = [p["id"] for p in props]
 
 # id -> (engine, technique, level text, level note, design ref)
 CHECKS = {
+ "C18": ("E5", "bounded-exhaustive enumeration of field-value menus (all pairs) per binary structure, real encodings compared byte for byte with an independent layout table, decode-encode round trips, every truncation/extension and reserved/out-of-range variant fed to the decoders",
+         "EFI GUID, GUID-table entry, metadata-offset block, SEV-ES reset block, SEV metadata header and section, TDVF descriptor/section/metadata, PI hand-off table / resource descriptor / GUID-extension HOB (data lengths 0-17), the VMSA (every one of 48 scalar fields at 6 values against its APM offset and width, 10 segments x selector/limit/base menus, each reserved range at its documented size, off-by-one sizes and every single non-zero byte, out-of-range cpl/selector/attrib), SP800-155 Event3 (string/locator menus, zero padding 0-8, trailing garbage, every truncation), TCG crypto-agile logs (0-2 events, every truncation must be refused or re-encode to exactly the prefix) and size-prefixed strings.",
+         "Trusted: the layout tables restated in the harness (APM vol. 2 table B-4, PI 1.6, PFP, edk2); PAGE_INFO has unexported fields and is covered through the digest chain in C04.",
+         "DESIGN.md#c18"),
  "C19": ("E5", "bounded-exhaustive enumeration: all token sequences / short byte strings for totality of scanner, parser and evaluator; all well-typed paths to a depth bound generated from the message descriptors, evaluated on populated messages against a reference protoreflect walker; byte renderings against field bytes",
          "(i) every sequence of <=4 (thorough 5) tokens over a 23-token alphabet and every byte string of length <=3 (4) over 16 bytes is parsed and, if it parses, evaluated, under panic guard and a progress watchdog; (ii) every well-typed path with <=3 (4) field accesses generated from the descriptors of testmessage.Test and VMGoldenMeasurement - each field, list indices in and out of range, present and absent map keys of all six key kinds in several literal spellings, implicit and explicit root, wrongly typed key literals - is parsed and evaluated on messages populated with distinct values at every node, and the result is compared with walking the message through protoreflect; (iii) raw/hex/base64/auto renderings of 11 bytes fields and the raw payload/signature are compared with the exact bytes.",
          "Trusted: protoreflect as the reference walker; hand-built protopath values with a wrongly typed map key are outside the statement (it quantifies over textual paths).",
